@@ -102,7 +102,7 @@ def main():
     watchdog = pid != "C09"          # C09 guards its own regex calls with the same timer
     if watchdog:
         signal.signal(signal.SIGALRM, on_alarm)
-    for idx in range(lo, hi, step):
+    for idx in (args.get("indices") or range(lo, hi, step)):
         labels = (seed, pid, idx)
         try:
             if watchdog:
